@@ -106,6 +106,41 @@ async fn h_mayfail(
     Ok(dropshot::HttpResponseHeaders::new(HttpResponseOk(Inner { x: 1, y: None }), LabelHeaders { label: q.into_inner().label }))
 }
 
+/// a second endpoint-specific error type with the same bare Rust name (and schema name) in another
+/// module and a different shape: each endpoint's errors must be documented with its own type
+pub mod alt {
+    use super::*;
+    #[derive(Debug, Serialize, JsonSchema)]
+    pub struct ZooError {
+        pub reason: String,
+        pub retryable: bool,
+        #[serde(skip)]
+        pub status: u16,
+    }
+    impl std::fmt::Display for ZooError {
+        fn fmt(&self, f: &mut std::fmt::Formatter<'_>) -> std::fmt::Result {
+            write!(f, "alt zoo error {}", self.reason)
+        }
+    }
+    impl dropshot::HttpResponseError for ZooError {
+        fn status_code(&self) -> dropshot::ErrorStatusCode {
+            dropshot::ErrorStatusCode::from_u16(self.status).unwrap_or(dropshot::ErrorStatusCode::INTERNAL_SERVER_ERROR)
+        }
+    }
+    impl From<HttpError> for ZooError {
+        fn from(e: HttpError) -> Self {
+            ZooError { reason: e.external_message, retryable: false, status: e.status_code.as_u16() }
+        }
+    }
+    pub async fn h_mayfail_alt(
+        rq: RequestContext<ZooCtx>,
+        q: dropshot::Query<LabelQuery>,
+    ) -> Result<dropshot::HttpResponseHeaders<HttpResponseOk<Inner>, LabelHeaders>, ZooError> {
+        rq.context().entered.fetch_add(1, Ordering::SeqCst);
+        Ok(dropshot::HttpResponseHeaders::new(HttpResponseOk(Inner { x: 2, y: None }), LabelHeaders { label: q.into_inner().label }))
+    }
+}
+
 macro_rules! zoo_api {
     ($api:ident; $($t:ty),* $(,)?) => {{
         let mut i = 0;
@@ -132,6 +167,7 @@ pub fn zoo_echo_api() -> ApiDescription<ZooCtx> {
         std::collections::BTreeSet<u8>, Option<Vec<External>>, std::collections::BTreeMap<String, Vec<Adjacent>>,
     ];
     api.register(ApiEndpoint::new("label_mayfail".to_string(), h_mayfail, http::Method::GET, "application/json", "/zoo/label", ApiEndpointVersions::All)).unwrap();
+    api.register(ApiEndpoint::new("label_alt_mayfail".to_string(), alt::h_mayfail_alt, http::Method::GET, "application/json", "/zoo/zlabel", ApiEndpointVersions::All)).unwrap();
     api
 }
 
